@@ -184,14 +184,15 @@ Proof.
   apply Z.leb_gt in E. apply slice_np; lia.
 Qed.
 
-Lemma check_key_value_np path r v : np (check_key_value path r v).
+Lemma check_key_value_np path r v : np (dec_guard v) -> np (check_key_value path r v).
 Proof.
-  unfold check_key_value. np_step; [apply extract_index_names_np|].
+  intros Hdg. unfold check_key_value. np_step; [apply extract_index_names_np|].
   destruct a as [|x l]; [apply np_ok|].
   np_step; [np_step|]. np_step; [np_step|].
+  np_step; [destruct (nv_type v =? 5); [exact Hdg | apply np_ok]|].
   np_step; [apply get_parent_path_np|].
   np_step.
-  - pose proof (zlast_index_range c_slash a). apply slice_np; lia.
+  - pose proof (zlast_index_range c_slash a0). apply slice_np; lia.
   - np_step; [apply extract_index_names_np|]. np_step; np_step.
 Qed.
 
@@ -208,7 +209,8 @@ Proof.
   revert a; induction l as [|[s|] l IH]; intros a; cbn; intros H; [apply np_ok | | apply np_ok].
   apply andb_true_iff in H. destruct H as [Hs Hl].
   destruct s as [x|x|z|n|b|b|[[d p]|]|f|]; try (apply IH; exact Hl); try apply np_err.
-  cbn in Hs. discriminate.
+  - destruct (max_decimal_precision <? p); [apply np_err | apply IH; exact Hl].
+  - cbn in Hs. discriminate.
 Qed.
 
 Lemma handle_leaf_list_np l :
@@ -223,8 +225,25 @@ Qed.
 Lemma to_native_np v : match v with Some t => tval_ok t = true | None => True end -> np (to_native v).
 Proof.
   destruct v as [[s|j|l]|]; cbn; intros H; try apply np_err.
-  - destruct s as [x|x|z|n|b|b|[[d p]|]|[|]|]; first [apply np_ok | apply np_err | discriminate].
+  - destruct s as [x|x|z|n|b|b|[[d p]|]|[|]|]; first [apply np_ok | apply np_err | discriminate | idtac].
+    destruct (max_decimal_precision <? p); [apply np_err | apply np_ok].
   - apply handle_leaf_list_np. exact H.
+Qed.
+
+(* a value accepted by the conversion has a precision strDecimal64 can divide by *)
+Lemma to_native_dec_guard v nv : to_native v = Ok nv -> np (dec_guard nv).
+Proof.
+  destruct v as [[s|j|l]|]; cbn; try discriminate.
+  - destruct s as [x|x|z|n|b|b|[[d p]|]|[|]|]; try discriminate; try (intros [= <-]; reflexivity).
+    destruct (max_decimal_precision <? p) eqn:E; [discriminate|]. intros [= <-].
+    apply N.ltb_ge in E. unfold max_decimal_precision in E. unfold dec_guard. cbn.
+    assert (Hp : (Z.of_N (p mod 256) mod 256 < 64)%Z).
+    { rewrite N.mod_small by lia. rewrite Z.mod_small by lia. lia. }
+    apply Z.ltb_lt in Hp. rewrite Hp. reflexivity.
+  - unfold handle_leaf_list. destruct (has_nil_elem l); [discriminate|].
+    destruct (leaf_list_collect l la_empty) as [a| |]; cbn; try discriminate.
+    destruct (la_str a), (la_int a), (la_uint a), (la_bool a), (la_bytes a), (la_dec a), (la_float a);
+      try discriminate; intros [= <-]; reflexivity.
 Qed.
 
 (* ------------------------------------------------------------------ Set *)
@@ -253,7 +272,7 @@ Proof.
   { np_step; [apply find_path_from_model_np|].
     unfold find_path_from_model in H0. destruct (lookup_rw (anonymize_indices a) rw) eqn:El; [|discriminate].
     injection H0 as <-. np_step; [apply to_native_np; destruct (u_val u); [exact Hv | exact I]|].
-    np_step; [apply check_key_value_np | np_step]. }
+    np_step; [|np_step]. apply check_key_value_np. eapply to_native_dec_guard; eassumption. }
   destruct (u_val u) as [[s|j|l]|]; try exact Htyped.
   np_step; [apply json_base_path_np|]. destruct (u_plugin u); [apply np_err | apply np_ok].
 Qed.
@@ -366,26 +385,27 @@ Qed.
 Definition regexp_ok : Prop := forall q, np (must_compile (wildcard_regexp q false)).
 
 Lemma stored_ok_guards v : stored_ok v = true -> sv_deleted v = false ->
-  np (tree_guard (sv_path v)) /\ np (leaf_guard (sv_val v)).
+  np (tree_guard (sv_path v)) /\ np (json_leaf_guard (sv_val v)) /\ np (leaf_guard (sv_val v)).
 Proof.
   unfold stored_ok. intros H Hd. rewrite Hd in H. cbn in H. apply andb_true_iff in H. destruct H as [H1 H2].
-  apply negb_true_iff in H1. apply negb_true_iff in H2. split; assumption.
+  apply negb_true_iff in H1. apply negb_true_iff in H2. split; [exact H1|]. split; [exact H2|].
+  unfold json_leaf_guard in H2. destruct (leaf_guard (sv_val v)); [reflexivity | reflexivity | discriminate].
 Qed.
 
 Lemma get_update_np c enc q : regexp_ok -> forallb stored_ok (cf_values c) = true -> np (get_update c enc q).
 Proof.
   intros Hre Hc. unfold get_update. np_step; [apply Hre|].
   set (sel := filter _ (cf_values c)).
-  assert (Hsel : forall v, In v sel -> np (tree_guard (sv_path v)) /\ np (leaf_guard (sv_val v))).
+  assert (Hsel : forall v, In v sel -> np (tree_guard (sv_path v)) /\ np (json_leaf_guard (sv_val v)) /\ np (leaf_guard (sv_val v))).
   { intros v Hv. apply filter_In in Hv. destruct Hv as [Hin Hf]. apply andb_true_iff in Hf. destruct Hf as [_ Hd].
     apply negb_true_iff in Hd. apply stored_ok_guards; [|exact Hd].
     rewrite forallb_forall in Hc. apply Hc. exact Hin. }
   destruct sel as [|v0 sel0] eqn:Esel; [apply np_ok|]. rewrite <- Esel in *. clear Esel.
   np_step.
-  - np_step; [|np_step]. apply forall_guard_np. intros v Hv. destruct (Hsel v Hv) as [H1 H2].
+  - np_step; [|np_step]. apply forall_guard_np. intros v Hv. destruct (Hsel v Hv) as (H1 & H2 & _).
     np_step; [exact H1 | exact H2].
   - np_step; [|np_step].
-    np_step; [|np_step]. apply forall_guard_np. intros v Hv. destruct (Hsel v Hv) as [_ H2]. exact H2.
+    np_step; [|np_step]. apply forall_guard_np. intros v Hv. destruct (Hsel v Hv) as (_ & _ & H3). exact H3.
 Qed.
 
 Lemma find_config_ok st id ty ver c : state_ok st = true -> find_config st id ty ver = Some c -> forallb stored_ok (cf_values c) = true.
@@ -532,7 +552,7 @@ Lemma build_tree_guard_np vals : forallb stored_ok vals = true -> np (build_tree
 Proof.
   intros H. unfold build_tree_guard. apply forall_guard_np. intros v Hv.
   unfold prune in Hv. apply filter_In in Hv. destruct Hv as [Hin Hf]. apply andb_true_iff in Hf. destruct Hf as [Hd _].
-  apply negb_true_iff in Hd. rewrite forallb_forall in H. destruct (stored_ok_guards v (H v Hin) Hd) as [H1 H2].
+  apply negb_true_iff in Hd. rewrite forallb_forall in H. destruct (stored_ok_guards v (H v Hin) Hd) as (H1 & H2 & _).
   np_step; [exact H1 | exact H2].
 Qed.
 
